@@ -16,7 +16,7 @@ func init() {
 	register("C08", "other", []string{
 		"decides: the no-match edge always records the unknown option built from the verbatim token; Pass and Warn both pass the token through; Parse applies the policy (Fail: error naming the first record, Warn: warning to Writer) before its success return; configuration read through the cursor is inherited by every child node; records survive command descent",
 		"does not decide the wording of messages",
-	}, rC08Record, passThroughRule("R08.1c"), rC08Policy, rInherit("R08.3"), rC08Handoff, rC08NewUnknown)
+	}, rC08Record, passThroughRule("R08.1c"), rC08Policy, rInherit("R08.3"), rC08Handoff, rC08NewUnknown, rC08ModeWriters)
 	register("C09", "other", []string{
 		"decides: both stop sites test the cursor's requireOrder before the non-ordered handling and bulk-copy the tail; nothing is interpreted afterwards; requireOrder is read nowhere else (so parsing before the stop point does not depend on it); the flag is inherited by every child node; the positional stop comes after the command scan",
 	}, rC09Sites, rC09Helper, rC09Readers, rInherit("R09.4"), rC09AfterBulk, typestateRule("R09.6"))
@@ -792,4 +792,41 @@ func rC09AfterBulk(w *World, r *Report) {
 		return
 	}
 	afterBulk(w, ru, m)
+}
+
+// R08.6
+func rC08ModeWriters(w *World, r *Report) {
+	ru := r.Rule("R08.6", "the unknown mode of a node is written only by SetUnknownMode (with the value it is given) and by the inheritance copy in the child-node literals; Parse and the parser read it only to branch", 3)
+	f := w.Field("getoptions", "programTree", "unknownMode")
+	if f == nil {
+		ru.Undecided("anchor", "-", "field unknownMode not found")
+		return
+	}
+	for _, u := range w.fieldUses(f) {
+		n := short(u.Fn)
+		switch u.Kind {
+		case "write":
+			st := u.Instr.(*ssa.Store)
+			_, isParam := st.Val.(*ssa.Parameter)
+			_, isInherit := loadOfField(st.Val, f)
+			switch {
+			case n == "(*getoptions.GetOpt).SetUnknownMode" && isParam:
+				ru.Present("writer/"+n, w.IPos(st), "setter stores the given mode")
+			case isInherit:
+				if _, isAlloc := u.Addr.X.(*ssa.Alloc); isAlloc {
+					ru.Present("writer/"+n, w.IPos(st), "inheritance copy into a new node")
+				} else {
+					ru.Bad("writer/"+n, w.IPos(st), "the unknown mode of an existing node is overwritten")
+				}
+			default:
+				ru.Bad("writer/"+n, w.IPos(st), "the unknown mode is changed behind the user's back (e.g. Fail silently turned into Pass): unknown options would no longer be reported")
+			}
+		case "read":
+			if n != nParseCLI && n != nParse && n != "(*getoptions.GetOpt).NewCommand" && !strings.HasPrefix(n, "(*getoptions.GetOpt).HelpCommand") {
+				ru.Bad("reader/"+n, w.IPos(u.Instr), "unexpected reader of the unknown mode")
+			}
+		default:
+			ru.Bad("escape/"+n, w.IPos(u.Instr), "address of unknownMode escapes")
+		}
+	}
 }
